@@ -19,6 +19,8 @@ pub struct DeepOut {
     pub failing_op: Option<Op>,
     /// failures of other properties that were skipped
     pub other: u64,
+    /// digest of every probe's call and outcome (build-vs-build comparisons see probes too)
+    pub digest: u64,
 }
 
 fn collect_capped<I: Iterator>(it: I, cap: usize) -> Vec<I::Item> {
@@ -438,6 +440,31 @@ impl<P: Payload> World<P> {
                     return Some(format!("get_node_id(node of an unrelated arena) = {:?}", x));
                 }
             }
+            // a copy made by clone_from into a USED arena (different length, removed and recycled slots of its own)
+            // must answer every lookup like the original
+            let ids: Vec<NodeId> = big.iter().filter_map(|n| big.get_node_id(n)).collect();
+            for (k, id) in ids.iter().enumerate() {
+                if k % 3 == 0 {
+                    id.remove(&mut big);
+                }
+            }
+            for k in 0..2 {
+                big.new_node(P::make_untracked(&self.ctx, u64::MAX - 100 - k, 0));
+            }
+            big.clone_from(&self.arena);
+            if big != self.arena {
+                return Some("dest.clone_from(&arena) left dest != arena (dest was a used arena)".to_string());
+            }
+            for s in 0..count {
+                let (id, live) = (self.m.n[s].id, self.m.n[s].live);
+                let at = big.get_node_id_at(NonZeroUsize::new(s + 1).unwrap());
+                if at != if live { Some(id) } else { None } {
+                    return Some(format!("in a copy made by clone_from: get_node_id_at({}) = {:?}, the original says {:?}", s + 1, at, if live { Some(id) } else { None }));
+                }
+                if live && big.get_node_id(&big[id]) != Some(id) {
+                    return Some(format!("in a copy made by clone_from: get_node_id(&copy[{:?}]) = {:?}", id, big.get_node_id(&big[id])));
+                }
+            }
             None
         }));
         d.evals += count as u64 + 1;
@@ -496,7 +523,7 @@ impl<P: Payload> World<P> {
 
     /// candidates for pair probes: all current ids if few, else a seed-chosen subset that always
     /// contains a removed slot (if any) and keeps relatives together.
-    fn probe_candidates(&self, seed: u64, max: usize) -> Vec<usize> {
+    pub(crate) fn probe_candidates(&self, seed: u64, max: usize) -> Vec<usize> {
         let n = self.m.n.len();
         if n <= max {
             return (0..n).collect();
@@ -506,6 +533,49 @@ impl<P: Payload> World<P> {
         let rem = self.m.removed_slots();
         if !rem.is_empty() {
             picked.push(rem[(splitmix(seed) % rem.len() as u64) as usize]);
+        }
+        // the deepest node and the root above it: the longest ancestor relation of the forest (O(n) depths)
+        {
+            let mut depth = vec![usize::MAX; n];
+            let mut best = (0usize, usize::MAX);
+            for s in 0..n {
+                if !self.m.n[s].live {
+                    continue;
+                }
+                // walk up until a node with known depth, then unwind
+                let mut path = Vec::new();
+                let mut cur = s;
+                let base;
+                loop {
+                    if depth[cur] != usize::MAX {
+                        base = depth[cur];
+                        break;
+                    }
+                    path.push(cur);
+                    match self.m.n[cur].parent {
+                        Some(p) => cur = p,
+                        None => {
+                            base = usize::MAX; // marker: cur (last pushed) is a root
+                            break;
+                        }
+                    }
+                }
+                let mut d = if base == usize::MAX { 0 } else { base + 1 };
+                for &x in path.iter().rev() {
+                    depth[x] = d;
+                    d += 1;
+                }
+                if best.1 == usize::MAX || depth[s] > best.0 {
+                    best = (depth[s], s);
+                }
+            }
+            if best.1 != usize::MAX && best.0 >= 2 && max >= 3 {
+                picked.push(best.1);
+                let r = self.m.root_of(best.1);
+                if !picked.contains(&r) {
+                    picked.push(r);
+                }
+            }
         }
         while picked.len() < max {
             k += 1;
@@ -534,6 +604,7 @@ impl<P: Payload> World<P> {
             return true;
         }
         d.evals += 1;
+        d.digest = splitmix(d.digest ^ fnv(&so.desc) ^ fnv(&so.outcome).rotate_left(13) ^ fnv(&so.detail).rotate_left(29));
         d.nt.extend(so.nt.iter().copied());
         if !so.failures.is_empty() {
             // a probe failure that does not concern the property under check is only counted
@@ -557,9 +628,16 @@ impl<P: Payload> World<P> {
             for &n in &cand {
                 for kind in Kind::ALL {
                     for checked in [true, false] {
-                        let op = Op::Insert { kind, checked, target: Sel::Slot(t as u16), node: Sel::Slot(n as u16) };
+                        let op = Op::Insert { kind, checked, target: Sel::Slot(t as u32), node: Sel::Slot(n as u32) };
                         if !self.run_probe(op, cfg, d) {
                             return;
+                        }
+                        // a removed node can also be named by the handle get_node_id gives for its slot
+                        if !self.m.n[t].live || !self.m.n[n].live {
+                            let op = Op::Insert { kind, checked, target: Sel::SlotAlt(t as u32), node: Sel::SlotAlt(n as u32) };
+                            if !self.run_probe(op, cfg, d) {
+                                return;
+                            }
                         }
                     }
                 }
@@ -571,11 +649,11 @@ impl<P: Payload> World<P> {
     pub fn probe_unary(&self, seed: u64, cfg: &StepCfg, d: &mut DeepOut) {
         let slots: Vec<usize> = if self.m.n.len() > 64 { self.probe_candidates(seed ^ 0x5151, 12) } else { (0..self.m.n.len()).collect() };
         for s in slots {
-            let sel = Sel::Slot(s as u16);
+            let sel = Sel::Slot(s as u32);
             let ops: Vec<Op> = if self.m.n[s].live {
                 vec![Op::Remove { x: sel }, Op::RemoveSubtree { x: sel }, Op::Detach { x: sel }, Op::AppendValue { parent: sel, v: 7 }]
             } else {
-                vec![Op::AppendValue { parent: sel, v: 7 }]
+                vec![Op::AppendValue { parent: sel, v: 7 }, Op::AppendValue { parent: Sel::SlotAlt(s as u32), v: 7 }]
             };
             for op in ops {
                 if !self.run_probe(op, cfg, d) {
